@@ -153,7 +153,8 @@ class VGen(Gen):
         if isinstance(ty, str) and ty in ("float", "bool", "decimal", "uuid", "date", "datetime") and self.chance(0.12):
             # every scalar validator takes preprocessors: a user-written one that returns its argument, or a constant
             # of the target type
-            fn = {"f": "id"} if self.chance(0.5) else {"f": "constv", "v": self.atom(ty)}
+            # (an ordinary constant: a signalling NaN payload cannot be hashed into a set, finding D2's territory)
+            fn = {"f": "id"} if self.chance(0.5) else {"f": "constv", "v": self.atom(ty, special=False)}
             return [{"k": "user", "pid": self.pid(), "fn": fn}]
         return None
 
